@@ -9,9 +9,8 @@ namespace awkward {
 
   const std::string
   ArrayCache::newkey() {
-    std::string out = std::string("ak") + std::to_string(numkeys);
-    numkeys++;
-    return out;
+    // one atomic read-and-increment: two threads never get the same key
+    return std::string("ak") + std::to_string(numkeys++);
   }
 
   // Note: if you're creating a pure C++ cache (and it's not ridiculously
